@@ -22,7 +22,7 @@ ASSUMPTIONS = ['tm_exact and geod_exact oracles (self-validated each shard)',
                'bearing tolerance 1e-8 deg + 1 mm at the far end (the statement gives none for bearings; DESIGN.md section 5)']
 N = {'quick': 400, 'thorough': 6000}
 SHARDS = {'quick': 16, 'thorough': 32}
-REQUIRED_COUNTERS = ['inverse_closure', 'bearing2_judged', 'direct_judged', 'lsf_judged', 'adjacent_zone_cases', 'northern_cases']
+REQUIRED_COUNTERS = ['other_hemisphere_sequences', 'other_ellipsoid_sequences', 'inverse_closure', 'bearing2_judged', 'direct_judged', 'lsf_judged', 'adjacent_zone_cases', 'northern_cases']
 K0, FE, FN = 0.9996, 500000.0, 10000000.0
 BUDGET = 60
 
@@ -225,6 +225,29 @@ def run_shard(spec, ctx):
         if i < 2:
             ctx.sample(case)
         judge(ns, ctx, case, state)
+        if rnd.random() < 0.3:
+            c2 = dict(case)
+            if rnd.random() < 0.6:
+                # the same zone/easting/northing numbers read in the other hemisphere: another, equally valid pair of points
+                c2['hemi'] = 'north' if case['hemi'] == 'south' else 'south'
+                south = c2['hemi'] == 'south'
+                a_, invf_ = tmwork.ell_published(case['ell'])
+                try:
+                    la1, lo1, _, _ = from_grid(c2['zone1'], c2['east1'], c2['north1'], south, a_, invf_)
+                    la2, lo2, _, _ = from_grid(c2['zone2'], c2['east2'], c2['north2'], south, a_, invf_)
+                    ok = (-180.0 <= lo1 <= 180.0 and -180.0 <= lo2 <= 180.0 and -80 < la1 < 84 and -80 < la2 < 84 and (la1 < 0) == south and (la2 < 0) == south and abs(la1) > 1e-4 and abs(la2) > 1e-4)
+                except Exception:
+                    ok = False
+                if ok:
+                    c2['az'] = case['az']
+                    c2['length'] = geod.chord(la1, lo1, la2, lo2, a_, invf_)
+                    judge(ns, ctx, c2, state)
+                    judge(ns, ctx, case, state)
+                    ctx.count('other_hemisphere_sequences')
+            else:
+                c2['ell'] = rnd.choice([e for e in ('grs80', 'wgs84', 'ans', 'intl24') if e != case['ell']])
+                judge(ns, ctx, c2, state)
+                ctx.count('other_ellipsoid_sequences')
 
 
 def replay(case, ctx):
